@@ -119,7 +119,26 @@ type Case struct {
 	OT    string     `json:"ot"`
 	Seed  uint64     `json:"seed"`
 	Fault *Fault     `json:"fault,omitempty"`
+	// Src, when set, is a literal MPCL source (mode "stream") that is
+	// streamed under a file name inside SrcDir of the repository, so that
+	// native("x.circ", ...) finds the circuit files shipped there; both
+	// parameters are uint64.
+	Src    string `json:"src,omitempty"`
+	SrcDir string `json:"srcdir,omitempty"`
+	// Chunk > 0: the garbler's random source delivers at most Chunk bytes
+	// per Read (short reads).
+	Chunk int `json:"chunk,omitempty"`
 }
+
+// withChunk turns a case without a fault into a short-read case now and then.
+func withChunk(t *rapid.T, cs Case) Case {
+	if cs.Fault == nil {
+		cs.Chunk = drawChunk(t, shortReadPct)
+	}
+	return cs
+}
+
+const shortReadPct = 8
 
 // Shares of wide and fault-injected cases (percent).
 const (
@@ -129,7 +148,11 @@ const (
 	faultPctStream  = 14
 )
 
-func genCircuitCase(t *rapid.T) Case {
+func genCircuitCase(t *rapid.T) Case { return withChunk(t, genCircuitCase0(t)) }
+
+func genStreamCase(t *rapid.T) Case { return withChunk(t, genStreamCase0(t)) }
+
+func genCircuitCase0(t *rapid.T) Case {
 	if gen.Uniform(t, 100, "wide") < widePctCircuit {
 		total := drawWideTotal(t)
 		n0 := drawSplit(t, total)
@@ -151,7 +174,69 @@ func genCircuitCase(t *rapid.T) Case {
 		Fault: drawFault(t, faultPctCircuit)}
 }
 
-func genStreamCase(t *rapid.T) Case {
+// hugeInputs are garbler input widths around the 64k-wire pages of the
+// streaming garbler's wire table.
+var hugeInputs = []int{65535, 65536, 65537, 65600, 131071, 131073}
+
+const hugePctStream = 3
+
+const nativePctStream = 5
+
+// drawNativeCase builds a program that calls a circuit file shipped with the
+// library through native() - directly or through the library function - with a
+// run-time value and a constant (the one argument the front end accepts
+// although it is narrower than the circuit input: 32 bits for 64).
+func drawNativeCase(t *rapid.T) Case {
+	circ := []string{"add64.circ", "sub64.circ", "mul64.circ", "div64.circ"}[gen.Uniform(t, 4, "native_circ")]
+	fn := map[string]string{"add64.circ": "AddUint64", "sub64.circ": "SubUint64", "mul64.circ": "MulUint64",
+		"div64.circ": "DivUint64"}[circ]
+	k := []string{"1", "2", "3", "5", "7", "255", "256", "65535", "65537", "0x7fffffff", "0xffffffff",
+		"0x100000000", "0xffffffffffffffff"}[gen.Uniform(t, 13, "native_const")]
+	dyn := []string{"a ^ b", "a", "b", "a + b", "a & b"}[gen.Uniform(t, 5, "native_dyn")]
+	args := dyn + ", " + k
+	if circ != "div64.circ" && rapid.Bool().Draw(t, "native_constfirst") {
+		args = k + ", " + dyn
+	}
+	var src, dir string
+	switch gen.Uniform(t, 3, "native_form") {
+	case 0:
+		dir = "pkg/math"
+		src = "package main\n\nfunc main(a, b uint64) uint64 {\n\treturn native(\"" + circ + "\", " + args + ")\n}\n"
+	case 1:
+		dir = "pkg/math"
+		src = "package main\n\nfunc main(a, b uint64) uint64 {\n\tx := native(\"" + circ + "\", " + args + ")\n\treturn native(\"add64.circ\", x, b)\n}\n"
+	default:
+		src = "package main\n\nimport (\n\t\"math\"\n)\n\nfunc main(a, b uint64) uint64 {\n\treturn math." + fn + "(" + args + ")\n}\n"
+	}
+	x := new(big.Int).SetUint64(rapid.Uint64().Draw(t, "x"))
+	y := new(big.Int).SetUint64(rapid.Uint64().Draw(t, "y"))
+	return Case{Mode: "stream", Src: src, SrcDir: dir, X: "0x" + x.Text(16), Y: "0x" + y.Text(16),
+		OT:   rapid.SampledFrom([]string{"co", "cot"}).Draw(t, "ot"),
+		Seed: rapid.Uint64().Draw(t, "seed")}
+}
+
+func genStreamCase0(t *rapid.T) Case {
+	if gen.Uniform(t, 100, "native") < nativePctStream {
+		return drawNativeCase(t)
+	}
+	if gen.Uniform(t, 100, "huge") < hugePctStream {
+		n0 := hugeInputs[gen.Uniform(t, len(hugeInputs), "huge_n0")]
+		n1 := gen.UniformRange(t, 1, 64, "huge_n1")
+		if rapid.Bool().Draw(t, "huge_swap") {
+			// the evaluator has the huge input (correlated OT only:
+			// one base OT per wire would take minutes)
+			return Case{Mode: "stream", Prog: drawWideProg(t, n1, n0),
+				X:    bitsHex(drawWideBits(t, n1, "x")),
+				Y:    bitsHex(drawWideBits(t, n0, "y")),
+				OT:   "cot",
+				Seed: rapid.Uint64().Draw(t, "seed")}
+		}
+		return Case{Mode: "stream", Prog: drawWideProg(t, n0, n1),
+			X:    bitsHex(drawWideBits(t, n0, "x")),
+			Y:    bitsHex(drawWideBits(t, n1, "y")),
+			OT:   rapid.SampledFrom([]string{"co", "cot"}).Draw(t, "ot"),
+			Seed: rapid.Uint64().Draw(t, "seed")}
+	}
 	if gen.Uniform(t, 100, "wide") < widePctStream {
 		total := drawWideTotal(t)
 		n0 := drawSplit(t, total)
@@ -230,6 +315,9 @@ func session(cs Case, failAt int) *sess {
 	spy := &spyOT{OT: makeOT(cs.OT, cs.Seed, 0)}
 	eOT := makeOT(cs.OT, cs.Seed, 1)
 	rnd := newFaultReader(cs.Seed, 1, failAt)
+	if cs.Chunk > 0 {
+		rnd.chunk = cs.Chunk
+	}
 	cfg := &env.Config{Rand: rnd}
 	switch cs.Mode {
 	case "circuit":
@@ -250,22 +338,35 @@ func session(cs Case, failAt int) *sess {
 				return circuit.Evaluator(eConn, eOT, circ, bitsToInt(y), false)
 			}, 10*time.Second, 120*time.Second)
 	case "stream":
-		if cs.Prog == nil || cs.Prog.Main() == nil || len(cs.Prog.Main().Params) != 2 {
-			s.skip = "malformed case"
-			return s
+		srcName := "{data}"
+		if cs.Src != "" {
+			if strings.Contains(cs.SrcDir, "..") || strings.HasPrefix(cs.SrcDir, "/") {
+				s.skip = "malformed case"
+				return s
+			}
+			s.src = cs.Src
+			s.n0, s.n1 = 64, 64
+			if cs.SrcDir != "" {
+				srcName = filepath.Join(repoRoot(), cs.SrcDir, "verif-c04-native.mpcl")
+			}
+		} else {
+			if cs.Prog == nil || cs.Prog.Main() == nil || len(cs.Prog.Main().Params) != 2 {
+				s.skip = "malformed case"
+				return s
+			}
+			s.src = cs.Prog.Source()
+			s.n0 = cs.Prog.Bits(cs.Prog.Main().Params[0].T)
+			s.n1 = cs.Prog.Bits(cs.Prog.Main().Params[1].T)
 		}
-		s.src = cs.Prog.Source()
 		params := utils.NewParams()
 		params.Config = cfg
 		sx, _ := circuit.InputSizes([]string{cs.X})
 		sy, _ := circuit.InputSizes([]string{cs.Y})
-		s.n0 = cs.Prog.Bits(cs.Prog.Main().Params[0].T)
-		s.n1 = cs.Prog.Bits(cs.Prog.Main().Params[1].T)
 		s.tables = 1
 		src := s.src
 		s.res = xport.RunPair(d,
 			func() ([]*big.Int, error) {
-				_, vals, err := compiler.New(params).Stream(gConn, spy, "{data}",
+				_, vals, err := compiler.New(params).Stream(gConn, spy, srcName,
 					strings.NewReader(src), []string{cs.X}, [][]int{sx, sy})
 				return vals, err
 			},
@@ -368,11 +469,22 @@ func run(cs Case) ev.Outcome {
 	if bad != nil {
 		return *bad
 	}
-	if bad := judge(cs.Mode, h, []ot.Label{r}, "honest run"); bad != nil {
+	hwhat, hmode := "honest run", cs.Mode
+	if cs.Chunk > 0 {
+		hwhat = fmt.Sprintf("honest run whose random source delivers at most %d bytes per Read", cs.Chunk)
+		hmode = cs.Mode + "/short-reads"
+	}
+	if bad := judge(hmode, h, []ot.Label{r}, hwhat); bad != nil {
 		return *bad
 	}
 	nontrivial := s0(h)
 	classes := []string{"mode=" + cs.Mode, "ot=" + cs.OT}
+	if cs.Chunk > 0 {
+		classes = append(classes, "short-reads", fmt.Sprintf("short-reads=%d", cs.Chunk))
+	}
+	if cs.Src != "" {
+		classes = append(classes, "native-circuit-call")
+	}
 	wc := wideClasses(h.n0, h.n1)
 	classes = append(classes, wc...)
 	if len(wc) > 0 && nontrivial {
